@@ -359,9 +359,14 @@ func runCheck(c *CheckDef, tier string, workers int, only, solver string, seed i
 	if c.Deadline != nil {
 		run.Deadline = time.Now().Add(c.Deadline(tier))
 	} else if tier == "thorough" {
-		// thorough explores as far as it gets in 45 minutes; what it did not
-		// finish is listed in the evidence (reduced bound)
-		run.Deadline = time.Now().Add(45 * time.Minute)
+		// thorough explores larger bounds for as long as was validated on the
+		// unchanged tree: 15 minutes (45 for the checks whose thorough tier is
+		// known to finish: C17, C20); what it did not finish is listed in the
+		// evidence (reduced bound)
+		run.Deadline = time.Now().Add(15 * time.Minute)
+		if c.ID == "C17" || c.ID == "C20" {
+			run.Deadline = time.Now().Add(45 * time.Minute)
+		}
 	} else {
 		// a quick check that does not finish in 25 minutes stops there: what it
 		// explored is reported, the rest is listed as not covered in the evidence
